@@ -19,11 +19,11 @@ LEVEL_TEXT = ("(1) Metatheorem SI-sched (Lean): tasks of one launch with pairwis
               "(slot tables of contact sensors as sets of records, sortedness by the criterion checked on its own) and the tactile block with MuJoCo C.")
 LEVEL_NOTE = ("C11_partial: the justification of the 25 listed pairs is argued in comments and exercised by the schedule oracle, not proved per kernel. The order-insensitivity of list consumers (tactile de-duplication, contact-sensor match lists) is decided by the schedule oracle on generated scenes, not by a theorem. Not covered: contact "
               "sensors with reduce=none and fewer slots than matches (which matches are reported follows the contact order by design) and sensors that see mixed contact directions under a sorted "
-              "reduce mode (MIXED_DIRECTION_SCENES, off: reported deviation of the unchanged tree). Serial task permutations only: no intra-task "
+              "reduce mode (MIXED_DIRECTION_SCENES; the direction-sort defect found with them was repaired in /repo: 122b908). Serial task permutations only: no intra-task "
               "interleaving, no GPU memory model. Trusted: Lean kernel, E3 extractor, the schedule hook (harness/sched.py).")
 ASSUMPTIONS = ["tolerance 2e-4 relative for float results under reordered sums; contacts and rows compared after canonical sorting",
                "sensor scenes: 1e-4 (1 + max) for the tactile block (kinematics only), 2e-3 (1 + max) for force-valued sensors; truncated sorted contact-sensor reports are skipped when the "
-               "criterion has a near tie at or before the cut; the slip channels are compared with MuJoCo C only for an axis-aligned sensor geom"]
+               "criterion has a near tie at or before the cut; the slip channels are compared with MuJoCo C for axis-aligned and yawed sensor geoms"]
 VERIF = os.path.abspath(os.path.join(os.path.dirname(__file__), "..", ".."))
 ORDERS = ["rev", "aff:7:3", "rot:5", "aff:13:1", "aff:5:2"]
 
@@ -166,8 +166,8 @@ def _sensor_scene(rng, c):
         sens += f'<contact name="{name}" {spec} reduce="{reduce}" num="{num}" data="{ALLDATA}"/>\n'
         meta.append((name, spec, reduce, num))
   cone = ' cone="elliptic"' if c % 2 else ""
-  # the slip channels are compared with MuJoCo C only for an axis-aligned finger: mujoco_warp does not rotate the taxel tangent
-  # frame into the world frame (deviation from MuJoCo that has nothing to do with thread order; reported separately)
+  # every other pair of cases yaws the finger: the slip channels are compared with MuJoCo C in both (the tangent frame used to ignore the
+  # geom's world orientation; found here, repaired in /repo: dc2bbca)
   ident = (c // 2) % 2 == 0
   topgeom = 'type="box" size="0.06 0.05 0.08"' if MIXED_DIRECTION_SCENES and c % 2 else 'type="sphere" size="0.08"'
   euler = "0 0 0" if ident else f"{rng.uniform(-.004, .004):.4f} {rng.uniform(-.004, .004):.4f} {rng.uniform(-.3, .3):.3f}"
@@ -260,14 +260,14 @@ def _run_sensors(ctx, acc, ncases):
     # MuJoCo C as the arbiter of the tactile block (pure kinematics + the set of touching geoms)
     mjpairs = sorted((min(int(g[0]), int(g[1])), max(int(g[0]), int(g[1]))) for g in mjd.contact.geom[: mjd.ncon])
     same_pairs = sorted(set(mjpairs)) == sorted(set(pairs_ref[0]))
-    acc.hit(("tactile-vs-mujoco (normal+slip)" if ident else "tactile-vs-mujoco (normal channel)") if same_pairs else "tactile-vs-mujoco-skipped(pair sets differ)")
+    acc.hit(("tactile-vs-mujoco (normal+slip, axis-aligned)" if ident else "tactile-vs-mujoco (normal+slip, yawed)") if same_pairs else "tactile-vs-mujoco-skipped(pair sets differ)")
 
     def check(sd, order):
       """sensordata of one order against the identity order (and the tactile block against MuJoCo C)"""
       for w in range(nworld):
         blk, rblk = sd[w, ta: ta + tn], ref[0][w, ta: ta + tn]
         tol = 1e-4 * (1 + np.abs(rblk).max())
-        nmj = tn if ident else n     # channels compared with MuJoCo C: all three, or the normal channel only
+        nmj = tn     # all three channels are compared with MuJoCo C, rotated sensor geoms included (regression for the repaired defect dc2bbca)
         if same_pairs and np.abs(blk[:nmj] - mjd.sensordata[ta: ta + nmj]).max() > tol:
           acc.find(f"tactile sensor under task order '{order}' differs from MuJoCo C by {np.abs(blk[:nmj] - mjd.sensordata[ta: ta + nmj]).max():.3g} (same touching geom pairs)",
                    "sensor._sensor_tactile", "order-tactile", xml=xml, order=order, world=w, qvel=mjd.qvel.tolist(), nworld=nworld)
